@@ -1,5 +1,6 @@
-import BM.Html
-/- Canonical text encodings shared with go/cmd/harness (hex fields, `-` = empty). -/
+import BM.Sanitize
+import BM.Gen.Defaults
+/- Canonical text encodings shared with go/bmx (hex fields, `-` = empty). -/
 namespace BM.Driver
 open BM BM.Html
 
@@ -22,5 +23,170 @@ def encToken (t : Token) : String :=
 
 def encTokens (ts : List Token) : String :=
   if ts.isEmpty then "-" else String.intercalate ";" (ts.map encToken)
+
+/-! ### builder ops -/
+
+def unhexList (s : String) : Option (List Bytes) :=
+  if s == "-" then some [] else (s.splitOn ",").mapM unhexField
+
+def parsePat (s : String) : Option (Option Pat) :=
+  if s == "-" then some none
+  else match s.splitOn "~" with
+    | [ids, sexp] =>
+      match ids.toNat?, Re.parse (strBytes sexp) with
+      | some id, some re => some (some ⟨id, Re.matchBytes re⟩)
+      | _, _ => none
+    | _ => none
+
+def parsePat! (s : String) : Option Pat := (parsePat s).bind id
+
+def parseScope (kind arg : String) : Option Scope :=
+  match kind with
+  | "E" => (unhexList arg).map .onElements
+  | "M" => (parsePat! arg).map .onElementsMatching
+  | "G" => some .globally
+  | _ => none
+
+def parseFlag (s : String) : Option Bool :=
+  if s == "1" then some true else if s == "0" then some false else none
+
+def bytesAfter (pre : String) (name : Bytes) : Option Bytes := stripPrefix? (strBytes pre) name
+
+/-- Lean twins of the named URL checks in go/bmx/policy.go -/
+def urlPolicyNamed (name : Bytes) : Option UrlPolicy :=
+  if name == strBytes "always" then some fun _ => true
+  else if name == strBytes "never" then some fun _ => false
+  else if name == strBytes "noquery" then some fun u => u.rawQuery.isEmpty
+  else match bytesAfter "host=" name with
+    | some h => some fun u => u.host == h
+    | none => match bytesAfter "opaqueprefix=" name with
+      | some h => some fun u => hasPrefix h u.opaq
+      | none => none
+
+/-- Lean twins of the named src rewriters -/
+def rewriterNamed (name : Bytes) : Option UrlRewriter :=
+  if name == strBytes "id" then some id
+  else if name == strBytes "clearquery" then some fun u => { u with rawQuery := [] }
+  else match bytesAfter "sethost=" name with
+    | some h => some fun u => { u with host := h }
+    | none => match bytesAfter "proxy=" name with
+      | some h => some fun u =>
+          { scheme := strBytes "https", host := h, path := strBytes "/proxy",
+            rawQuery := strBytes "u=" ++ Url.escape .queryComponent (Url.print u) }
+      | none => none
+
+/-- Lean twins of the named style handlers -/
+def styleHandlerNamed (name : Bytes) : Option (Bytes → Bool) :=
+  if name == strBytes "always" then some fun _ => true
+  else if name == strBytes "never" then some fun _ => false
+  else if name == strBytes "noparen" then some fun v => !(v.contains 40 || v.contains 92)
+  else match bytesAfter "eq=" name with
+    | some h => some fun v => v == h
+    | none => none
+
+def parseOp (s : String) : Option BuilderOp :=
+  match s.splitOn ":" with
+  | ["AE", ns] => (unhexList ns).map .allowElements
+  | ["US", ns] => (unhexList ns).map .allowURLSchemes
+  | ["SB", ns] => (unhexList ns).map .requireSandboxOnIFrame
+  | ["SK", ns] => (unhexList ns).map .skipElementsContent
+  | ["AK", ns] => (unhexList ns).map .allowElementsContent
+  | ["AEM", re] => (parsePat! re).map .allowElementsMatching
+  | ["USM", re] => (parsePat! re).map .allowURLSchemesMatching
+  | ["AA", ns, re, empty, sk, sa] =>
+    match unhexList ns, parsePat re, parseFlag empty, parseScope sk sa with
+    | some ns, some re, some e, some sc => some (.allowAttrs ns re e sc)
+    | _, _, _, _ => none
+  | ["AS", ns, h, en, re, sk, sa] =>
+    match unhexList ns, unhexList en, parsePat re, parseScope sk sa with
+    | some ns, some en, some re, some sc =>
+      if h == "-" then some (.allowStyles ns { enum := en, re := re } sc)
+      else match (unhexField h).bind styleHandlerNamed with
+        | some hf => some (.allowStyles ns { handler := some hf, enum := en, re := re } sc)
+        | none => none
+    | _, _, _, _ => none
+  | ["DA"] => some .allowDataAttributes
+  | ["AC"] => some .allowComments
+  | ["NF", b] => (parseFlag b).map .requireNoFollowOnLinks
+  | ["NFQ", b] => (parseFlag b).map .requireNoFollowOnFullyQualifiedLinks
+  | ["NR", b] => (parseFlag b).map .requireNoReferrerOnLinks
+  | ["NRQ", b] => (parseFlag b).map .requireNoReferrerOnFullyQualifiedLinks
+  | ["CO", b] => (parseFlag b).map .requireCrossOriginAnonymous
+  | ["TB", b] => (parseFlag b).map .addTargetBlankToFullyQualifiedLinks
+  | ["PU", b] => (parseFlag b).map .requireParseableURLs
+  | ["RU", b] => (parseFlag b).map .allowRelativeURLs
+  | ["SP", b] => (parseFlag b).map .addSpaceWhenStrippingTag
+  | ["UN", b] => (parseFlag b).map .allowUnsafe
+  | ["UC", sch, cb] =>
+    match unhexField sch, (unhexField cb).bind urlPolicyNamed with
+    | some s, some f => some (.allowURLSchemeWithCustomPolicy s f)
+    | _, _ => none
+  | ["RW", cb] => ((unhexField cb).bind rewriterNamed).map .rewriteSrc
+  | _ => none
+
+def parseOps (s : String) : Option (List BuilderOp) :=
+  if s == "-" then some [] else (s.splitOn "!").mapM parseOp
+
+/-- `NewPolicy()` with the regenerated default tables -/
+def newPolicy : Policy :=
+  { setOfElementsAllowedWithoutAttrs := Gen.defaultNoAttrs
+    setOfElementsToSkipContent := Gen.defaultSkipContent }
+
+/-! ### policy dump in the format of `Policy.VerifDump` -/
+
+def sortStrings (xs : List String) : List String := (xs.toArray.qsort (· < ·)).toList
+
+def flagCh (b : Bool) : String := if b then "1" else "0"
+
+def hexKey (b : Bytes) : String := hexStr b
+
+def dumpAttrPolicies (aps : List AttrPolicy) : String :=
+  String.intercalate "," (aps.map fun ap => match ap with
+    | none => "*"
+    | some r => "r" ++ toString r.id)
+
+def dumpAttrRules (m : AttrRules) : String :=
+  "{" ++ String.intercalate ";" (sortStrings (m.map fun (k, v) =>
+    hexKey k ++ "=[" ++ dumpAttrPolicies v ++ "]")) ++ "}"
+
+def dumpStylePolicies (sps : List StylePolicy) : String :=
+  String.intercalate "," (sps.map fun sp =>
+    if sp.handler.isSome then "h"
+    else if sp.enum.length > 0 then "e(" ++ String.intercalate "|" (sp.enum.map hexKey) ++ ")"
+    else match sp.re with
+      | some r => "r" ++ toString r.id
+      | none => "0")
+
+def dumpStyleRules (m : StyleRules) : String :=
+  "{" ++ String.intercalate ";" (sortStrings (m.map fun (k, v) =>
+    hexKey k ++ "=[" ++ dumpStylePolicies v ++ "]")) ++ "}"
+
+def dumpPolicy (p : Policy) : String :=
+  "flags=" ++ flagCh p.addSpaces ++ flagCh p.requireNoFollow ++
+    flagCh p.requireNoFollowFullyQualifiedLinks ++ flagCh p.requireNoReferrer ++
+    flagCh p.requireNoReferrerFullyQualifiedLinks ++ flagCh p.requireCrossOriginAnonymous ++
+    flagCh p.addTargetBlankToFullyQualifiedLinks ++ flagCh p.requireParseableURLs ++
+    flagCh p.allowRelativeURLs ++ flagCh p.allowDataAttributes ++ flagCh p.allowComments ++
+    flagCh p.allowUnsafe ++ flagCh p.srcRewriter.isSome ++
+  (match p.requireSandboxOnIFrame with
+   | none => " sandbox=nil"
+   | some vs => " sandbox=[" ++ String.intercalate "," (sortStrings (vs.eraseDups.map hexKey)) ++ "]") ++
+  " els=" ++ String.join ((sortStrings (p.elsAndAttrs.map fun (k, v) =>
+      hexKey k ++ ":" ++ dumpAttrRules v ++ " "))) ++
+  " elsm=" ++ String.intercalate " " (sortStrings (p.elsMatchingAndAttrs.map fun (r, m) =>
+      "r" ++ toString r.id ++ ":" ++ dumpAttrRules m)) ++
+  " gattrs=" ++ dumpAttrRules p.globalAttrs ++
+  " styles=" ++ String.join ((sortStrings (p.elsAndStyles.map fun (k, v) =>
+      hexKey k ++ ":" ++ dumpStyleRules v ++ " "))) ++
+  " stylesm=" ++ String.intercalate " " (sortStrings (p.elsMatchingAndStyles.map fun (r, m) =>
+      "r" ++ toString r.id ++ ":" ++ dumpStyleRules m)) ++
+  " gstyles=" ++ dumpStyleRules p.globalStyles ++
+  " schemes=" ++ String.join (sortStrings (p.allowURLSchemes.map fun (k, v) =>
+      hexKey k ++ ":" ++ toString v.length ++ ",")) ++
+  " schemere=" ++ String.intercalate "," (p.allowURLSchemeRegexps.map fun r => "r" ++ toString r.id) ++
+  " noattrs=" ++ String.intercalate "," (sortStrings (p.setOfElementsAllowedWithoutAttrs.map hexKey)) ++
+  " noattrsm=" ++ String.intercalate "," (p.setOfElementsMatchingAllowedWithoutAttrs.map fun r =>
+      "r" ++ toString r.id) ++
+  " skip=" ++ String.intercalate "," (sortStrings (p.setOfElementsToSkipContent.map hexKey))
 
 end BM.Driver
